@@ -1078,3 +1078,77 @@ Definition idmap_remove_keys_In_n {X} := idmap_remove_keys_In ncompare ncompare_
 Definition idmap_remove_keys_In_od {X} := idmap_remove_keys_In odcmp odcmp_refl odcmp_eq (X:=X).
 Definition idmap_remove_insert_n {X} := idmap_remove_insert ncompare ncompare_refl ncompare_eq (X:=X).
 Definition idmap_remove_insert_od {X} := idmap_remove_insert odcmp odcmp_refl odcmp_eq (X:=X).
+
+(** * Packaged statements for props/C14.v *)
+(** [tcmp] is the comparison of a total order consistent with equality
+    (what Rust's [Ord] promises for the marker type). *)
+Definition total_cmp {T} (tcmp : T → T → comparison) : Prop :=
+  (∀ x, tcmp x x = Eq) ∧ (∀ x y, tcmp x y = Eq → x = y) ∧
+  (∀ x y, tcmp y x = CompOpp (tcmp x y)) ∧
+  (∀ x y z, tcmp x y = Lt → tcmp y z = Lt → tcmp x z = Lt).
+
+Lemma total_cmp_n : total_cmp ncompare.
+Proof. split_and!; [apply ncompare_refl|apply ncompare_eq|apply ncompare_antisym|apply ncompare_trans]. Qed.
+Lemma total_cmp_od : total_cmp odcmp.
+Proof. split_and!; [apply odcmp_refl|apply odcmp_eq|apply odcmp_antisym|apply odcmp_trans]. Qed.
+
+Lemma c14_order {T} (tcmp : T → T → comparison) : total_cmp tcmp →
+  ∀ a b c : list (Qc * T),
+    idcmp tcmp a a = Eq ∧
+    (idcmp tcmp a b = Eq ↔ a = b) ∧
+    idcmp tcmp b a = CompOpp (idcmp tcmp a b) ∧
+    (idcmp tcmp a b = Lt → idcmp tcmp b c = Lt → idcmp tcmp a c = Lt) ∧
+    (idcmp tcmp a b = Lt ∨ a = b ∨ idcmp tcmp b a = Lt).
+Proof.
+  intros (Hr & He & Ha & Ht) a b c. split_and!.
+  - by apply idcmp_refl.
+  - split; [by apply idcmp_eq|]. intros ->. by apply idcmp_refl.
+  - by apply idcmp_antisym.
+  - by apply idcmp_trans.
+  - by apply idcmp_trichotomy.
+Qed.
+
+Lemma c14_dense {T} (tcmp : T → T → comparison) : total_cmp tcmp →
+  ∀ (low high : list (Qc * T)) (m : T),
+    (idcmp tcmp low high = Lt →
+       idcmp tcmp low (between tcmp (Some low) (Some high) m) = Lt ∧
+       idcmp tcmp (between tcmp (Some low) (Some high) m) high = Lt ∧
+       between tcmp (Some high) (Some low) m = between tcmp (Some low) (Some high) m ∧
+       idvalue (between tcmp (Some low) (Some high) m) = Some m) ∧
+    (low ≠ [] → idcmp tcmp low (between tcmp (Some low) None m) = Lt) ∧
+    (high ≠ [] → idcmp tcmp (between tcmp None (Some high) m) high = Lt) ∧
+    idvalue (between tcmp (Some low) None m) = Some m ∧
+    idvalue (between tcmp None (Some high) m) = Some m ∧
+    idvalue (between tcmp None None m) = Some m.
+Proof.
+  intros (Hr & He & Ha & Ht) low high m. split_and!.
+  - intros Hlt. destruct (between_density tcmp Hr low high m Hlt) as [H1 H2]. split_and!; [done..| |].
+    + by apply between_sym.
+    + by apply between_value_lt.
+  - apply between_low_only.
+  - apply between_high_only.
+  - apply between_value_low_only.
+  - apply between_value_high_only.
+  - apply between_value_none.
+Qed.
+
+(** identifiers allocated with distinct markers never collide *)
+Lemma c14_unique {T} (tcmp : T → T → comparison) (lo hi lo' hi' : option (list (Qc * T))) (m m' : T) :
+  proper_gap tcmp lo hi → proper_gap tcmp lo' hi' → m ≠ m' →
+  between tcmp lo hi m ≠ between tcmp lo' hi' m'.
+Proof. apply between_marker_neq. Qed.
+
+Lemma c14_empty_low_witness (m : N) :
+  between ncompare (Some []) None m = [(Q2Qc 0, m)] ∧
+  idcmp ncompare (between ncompare (Some []) None m) [] = Lt.
+Proof. split; [apply between_nil_low|apply between_nil_low_lt]. Qed.
+
+Lemma c14_examples :
+  let a : list (Qc * N) := [(Q2Qc 0, 1)] in
+  let b : list (Qc * N) := [(Q2Qc 0, 1); (Q2Qc 0, 0)] in
+  let c : list (Qc * N) := [(Q2Qc 0, 3)] in
+  idcmp ncompare b a = Lt ∧ idcmp ncompare a c = Lt ∧
+  idcmp ncompare b (between ncompare (Some b) (Some a) 2) = Lt ∧
+  between ncompare (Some a) (Some c) 2 = [(Q2Qc 0, 2)] ∧
+  between ncompare (Some a) (Some c) 5 = [(Q2Qc 0, 3); (Q2Qc 0, 5)].
+Proof. split_and!; by vm_compute. Qed.
